@@ -104,3 +104,26 @@ V("C02-o-guess-not-stored", "C02", "C02.3", (ITY, "self.stage_values = D.ar_nump
 V("C02-s-reorder", "C02", "silent", (RKM, "initial_time + timestep * rk_tableau[stage, 0]", "rk_tableau[stage, 0] * timestep + initial_time"))
 V("C02-s-rename", "C02", "silent", (RKM, "stage_coeffs", "a_row"), count=3)
 V("C02-s-demorgan", "C02", "silent", (ITY, "if self.is_fsal and self.is_explicit:\n            self.dState = intermediate_dstate", "if not (not self.is_fsal or self.is_implicit):\n            self.dState = intermediate_dstate"))
+
+# ---- C03 -----------------------------------------------------------------------------------------
+V("C03-a-noclamp", "C03", "C03.2", (DS, "                    is_final_step = True\n                    dt = (tf - self.__t[self.counter])", "                    is_final_step = True\n                    dt = self.dt"))
+V("C03-b-time-dt", "C03", "C03.2", (DS, "self.__t[self.counter + 1] = self.__t[self.counter] + dTime", "self.__t[self.counter + 1] = self.__t[self.counter] + dt"))
+V("C03-c-nocapacity", "C03", "C03.3", (DS, "                if self.counter + 1 >= len(self.__y):\n                    total_steps = self.__alloc_space_steps(tf - dTime) + 1\n                    self.__allocate_soln_space(total_steps)\n", ""))
+V("C03-c2-capacity-off", "C03", "C03.3", (DS, "                if self.counter + 1 >= len(self.__y):\n                    total_steps = self.__alloc_space_steps(tf - dTime) + 1", "                if self.counter + 1 > len(self.__y):\n                    total_steps = self.__alloc_space_steps(tf - dTime) + 1"))
+V("C03-d-inc-first", "C03", "C03.2", (DS,
+  "                self.__y[self.counter + 1] = self.__y[self.counter] + dState\n                self.__t[self.counter + 1] = self.__t[self.counter] + dTime\n\n                self.counter += 1\n",
+  "                self.counter += 1\n                self.__y[self.counter] = self.__y[self.counter - 1] + dState\n                self.__t[self.counter] = self.__t[self.counter - 1] + dTime\n\n"))
+V("C03-e-guard-abs", "C03", ["C03.1", "C03.2"], (DS, "(self.dt != 0 and D.ar_numpy.abs(tf - self.__t[self.counter]) >= D.tol_epsilon(", "(self.dt != 0 and D.ar_numpy.abs(tf) - D.ar_numpy.abs(self.__t[self.counter]) >= D.tol_epsilon("))
+V("C03-f-nodtype", "C03", "C03.4", (DS, "__new_allocs = D.ar_numpy.zeros((num_units,) + D.ar_numpy.shape(self.__y[0]), **self.__array_con_kwargs)", "__new_allocs = D.ar_numpy.zeros((num_units,) + D.ar_numpy.shape(self.__y[0]))"))
+V("C03-g-old-overshoot", "C03", ["C03.1", "C03.2"], (DS, "D.ar_numpy.abs(self.dt) > D.ar_numpy.abs(tf - self.__t[self.counter]):\n                    is_final_step = True", "D.ar_numpy.abs(self.dt + self.__t[self.counter]) > D.ar_numpy.abs(tf):\n                    is_final_step = True"))
+V("C03-h-no-reorient", "C03", "C03.5", (DS, "                self.__fix_dt_dir(tf, self.__t[self.counter])\n                if not implicit_integration", "                if not implicit_integration"))
+V("C03-i-overshoot-2x", "C03", "C03.2", (DS, "D.ar_numpy.abs(self.dt) > D.ar_numpy.abs(tf - self.__t[self.counter]):\n                    is_final_step = True", "D.ar_numpy.abs(self.dt) > 2 * D.ar_numpy.abs(tf - self.__t[self.counter]):\n                    is_final_step = True"))
+V("C03-j-state-from-prev", "C03", "C03.2", (DS, "self.__y[self.counter + 1] = self.__y[self.counter] + dState", "self.__y[self.counter + 1] = self.__y[0] + dState"))
+V("C03-k-row0", "C03", "C03.4", (DS, "                            self.__t[self.counter + 1] = next_time\n                            self.__y[self.counter + 1] = next_state", "                            self.__t[self.counter] = next_time\n                            self.__y[self.counter] = next_state"))
+V("C03-l-reorient-span", "C03", "C03.5", (DS, "                self.__fix_dt_dir(tf, self.__t[self.counter])\n                if not implicit_integration", "                self.__fix_dt_dir(self.tf, self.t0)\n                if not implicit_integration"))
+V("C03-m-start-from-t0", "C03", "C03.2", (DS, "self.integrator(self.equ_rhs, self.__t[self.counter], self.__y[self.counter],", "self.integrator(self.equ_rhs, self.__t[self.counter], self.__y[self.counter - 1],"))
+V("C03-s-swap-writes", "C03", "silent", (DS,
+  "                self.__y[self.counter + 1] = self.__y[self.counter] + dState\n                self.__t[self.counter + 1] = self.__t[self.counter] + dTime\n",
+  "                self.__t[self.counter + 1] = dTime + self.__t[self.counter]\n                self.__y[self.counter + 1] = dState + self.__y[self.counter]\n"))
+V("C03-s-ge", "C03", "silent", (DS, "D.ar_numpy.abs(self.dt) > D.ar_numpy.abs(tf - self.__t[self.counter]):\n                    is_final_step = True", "D.ar_numpy.abs(tf - self.__t[self.counter]) <= D.ar_numpy.abs(self.dt):\n                    is_final_step = True"))
+V("C03-s-capacity-early", "C03", "silent", (DS, "                if self.counter + 1 >= len(self.__y):\n                    total_steps = self.__alloc_space_steps(tf - dTime) + 1", "                if self.counter + 2 >= len(self.__y):\n                    total_steps = self.__alloc_space_steps(tf - dTime) + 1"))
